@@ -31,7 +31,7 @@ func holdsSyncByValue(n *types.Named) string {
 	return ""
 }
 
-func checkReceiverDiscipline(c *Ctx, rule string, pred func(name string) bool, min int) {
+func checkReceiverDiscipline(c *Ctx, rule string, pred func(nt *types.Named) bool, min int) {
 	p := c.P
 	n, bad := 0, 0
 	// methods (of the selected types) that assign to a field of their receiver, directly or through another
@@ -52,7 +52,7 @@ func checkReceiverDiscipline(c *Ctx, rule string, pred func(name string) bool, m
 		nt, _ := rt.(*types.Named)
 		fd, _ := f.Syntax().(*ast.FuncDecl)
 		pk := p.PkgOf(f)
-		if nt == nil || !pred(canonTypeName(nt.Obj())) || fd == nil || fd.Body == nil || pk == nil || fd.Recv == nil || len(fd.Recv.List) == 0 || len(fd.Recv.List[0].Names) == 0 {
+		if nt == nil || !pred(nt) || fd == nil || fd.Body == nil || pk == nil || fd.Recv == nil || len(fd.Recv.List) == 0 || len(fd.Recv.List[0].Names) == 0 {
 			return nt, nil, nil
 		}
 		return nt, fd, pk.TypesInfo.Defs[fd.Recv.List[0].Names[0]]
@@ -123,7 +123,7 @@ func checkReceiverDiscipline(c *Ctx, rule string, pred func(name string) bool, m
 			rt, isPtr = pt.Elem(), true
 		}
 		nt, _ := rt.(*types.Named)
-		if nt == nil || !pred(canonTypeName(nt.Obj())) {
+		if nt == nil || !pred(nt) {
 			continue
 		}
 		n++
@@ -199,3 +199,17 @@ func checkReceiverDiscipline(c *Ctx, rule string, pred func(name string) bool, m
 }
 
 var _ = ssa.BuilderMode(0)
+
+// implementersIn: predicate selecting the named types of a production package that implement one of the
+// package's interfaces listed (role-based: a renamed type is still selected).
+func (p *Prog) implementersIn(pkgSuffix string, ifaces ...string) func(*types.Named) bool {
+	set := map[*types.Named]bool{}
+	for _, in := range ifaces {
+		if it := p.Iface(pkgSuffix, in); it != nil {
+			for _, t := range p.Implementers(it) {
+				set[t] = true
+			}
+		}
+	}
+	return func(nt *types.Named) bool { return set[nt] }
+}
